@@ -82,6 +82,12 @@ def run_case(r, obs):
         a, b, c = r["args"]
         for args in _forms(a, b, c):
             for n in range(0, nmax + 1):
+                # values unrelated to positions: small, negative, float, non-numeric
+                ys = [(-1) ** i * (i // 2) * 0.5 if i % 3 else "v%d" % i for i in range(n)]
+                refy = ys[slice(*args)]
+                goty = list(lena.flow.Slice(*args).run(iter(ys)))
+                obs.check(goty == refy, "slice-run-differs:value-dependent",
+                          "Slice%r.run(%r) = %r, list slicing gives %r" % (args, ys, goty, refy))
                 xs = list(range(100, 100 + n))
                 ref = xs[slice(*args)]
                 s = lena.flow.Slice(*args)
@@ -144,6 +150,11 @@ def run_case(r, obs):
             got = list(lena.flow.Reverse().run(iter(xs)))
             obs.check(got == list(reversed(xs)), "reverse-differs",
                       "Reverse.run(%r) = %r" % (xs, got))
+            rv = lena.flow.Reverse()
+            list(rv.run(iter(xs)))
+            got = list(rv.run(iter(xs)))
+            obs.check(got == list(reversed(xs)), "reverse-second-run-differs",
+                      "second run of one Reverse instance on %r = %r" % (xs, got))
             got = list(lena.flow.Reverse().run(xs))   # a list, not an iterator
             obs.check(got == list(reversed(xs)) and xs == list(range(n)),
                       "reverse-differs", "Reverse.run(list %r) = %r" % (xs, got))
@@ -156,6 +167,10 @@ def run_case(r, obs):
                 got = list(ch())
                 ref = list(itertools.chain(*its))
                 obs.check(got == ref, "chain-differs", "Chain%r() = %r, expected %r" % (its, got, ref))
+                # re-iterable arguments: every call chains them again
+                got2 = list(ch())
+                obs.check(got2 == ref, "chain-second-call-differs",
+                          "second call of Chain%r() = %r, expected %r" % (its, got2, ref))
                 obs.count("chain_runs")
     elif k == "countfrom":
         obs.nontrivial = True
@@ -167,6 +182,19 @@ def run_case(r, obs):
                 obs.check(got == ref, "countfrom-differs",
                           "CountFrom(%r,%r) = %r.., expected %r" % (start, step, got[:5], ref[:5]))
                 obs.count("countfrom_runs")
+                # the same instance generates an independent flow on every call,
+                # also when the flows are consumed interleaved
+                g1 = cf()
+                a = [next(g1) for _ in range(3)]
+                g2 = cf()
+                b = [next(g2) for _ in range(4)]
+                a += [next(g1) for _ in range(3)]
+                obs.check(a == ref[:6] and b == ref[:4], "countfrom-calls-not-independent",
+                          "CountFrom(%r,%r): interleaved calls of one instance gave %r and %r, "
+                          "itertools.count gives %r" % (start, step, a, b, ref[:6]))
+                again = list(itertools.islice(cf(), 25))
+                obs.check(again == ref, "countfrom-calls-not-independent",
+                          "CountFrom(%r,%r): a later call gave %r.." % (start, step, again[:5]))
         cf = lena.flow.CountFrom()
         obs.check(list(itertools.islice(cf(), 5)) == [0, 1, 2, 3, 4], "countfrom-differs",
                   "CountFrom() default")
@@ -194,6 +222,11 @@ def run_case(r, obs):
             obs.check(got == ref and [type(g) for g in got] == [type(x) for x in ref],
                       "runningchunkby-differs",
                       "RunningChunkBy(%d,%s).run(%r) = %r, expected %r" % (size, cont, xs, got, ref))
+            el = mk()
+            list(el.run(iter(xs)))
+            got = list(el.run(iter(xs)))
+            obs.check(got == ref, "runningchunkby-second-run-differs",
+                      "second run of one RunningChunkBy(%d,%s) on %r = %r" % (size, cont, xs, got))
             got = list(mk().run(xs))
             obs.check(got == ref, "runningchunkby-differs",
                       "RunningChunkBy(%d,%s).run(list) = %r, expected %r" % (size, cont, got, ref))
